@@ -1,0 +1,30 @@
+//go:build verif
+// +build verif
+
+package multicastsetup
+
+// Contracts for /verif (tool: gov); comments only.
+// the command registry and the sentinel error are written by package init only
+//@ immutable commandPayloadRegistry ErrNoPayloadForCID
+
+// Multicast keys (TS005 Remote Multicast Setup §4):
+//   McRootKey = aes128_encrypt(GenAppKey, 0x00 | pad16)   (LoRaWAN 1.0.x)
+//   McRootKey = aes128_encrypt(AppKey,    0x20 | pad16)   (LoRaWAN 1.1)
+//   McKEKey   = aes128_encrypt(McRootKey, 0x00 | pad16)
+//   McAppSKey = aes128_encrypt(McKey, 0x01 | McAddr | pad16),  McNetSKey = aes128_encrypt(McKey, 0x02 | McAddr | pad16)
+//   McAddr is inserted as in the over-the-air format (little endian)
+//@ func GetMcRootKeyForGenAppKey
+//@   props C18
+//@   ensures key: err == nil && result0 == aes_enc(genAppKey, 0, 0, 0, 0, 0, 0, 0, 0, 0, 0, 0, 0, 0, 0, 0, 0)
+//@ func GetMcRootKeyForAppKey
+//@   props C18
+//@   ensures key: err == nil && result0 == aes_enc(appKey, 0x20, 0, 0, 0, 0, 0, 0, 0, 0, 0, 0, 0, 0, 0, 0, 0)
+//@ func GetMcKEKey
+//@   props C18
+//@   ensures key: err == nil && result0 == aes_enc(mcRootKey, 0, 0, 0, 0, 0, 0, 0, 0, 0, 0, 0, 0, 0, 0, 0, 0)
+//@ func GetMcAppSKey
+//@   props C18
+//@   ensures key: err == nil && result0 == aes_enc(mcKey, 0x01, mcAddr[3], mcAddr[2], mcAddr[1], mcAddr[0], 0, 0, 0, 0, 0, 0, 0, 0, 0, 0, 0)
+//@ func GetMcNetSKey
+//@   props C18
+//@   ensures key: err == nil && result0 == aes_enc(mcKey, 0x02, mcAddr[3], mcAddr[2], mcAddr[1], mcAddr[0], 0, 0, 0, 0, 0, 0, 0, 0, 0, 0, 0)
